@@ -1,6 +1,6 @@
 use crate::aplang::ApLang;
 use crate::interpreter::env::{Env, LoopControl};
-use crate::interpreter::errors::{Reports, RuntimeError};
+use crate::interpreter::errors::RuntimeError;
 use crate::interpreter::procedure::FunctionMap;
 use crate::interpreter::procedure::Procedure;
 use crate::interpreter::value::Value;
@@ -469,10 +469,25 @@ impl Interpreter {
                             }
                         })?;
 
+                    // a module that fails to lex or parse is reported at the import
+                    let invalid_module = |phase: &str, reports: Vec<miette::Report>| RuntimeError {
+                        named_source: NamedSource::new(
+                            self.get_file_path(),
+                            import.module_name.source.clone(),
+                        ),
+                        span: import.module_name.span,
+                        message: format!("user module {} could not be {}", module_name, phase),
+                        label: "invalid module".to_string(),
+                        help: format!(
+                            "fix the {} error{} in the module (run it on its own to see them)",
+                            reports.len(),
+                            if reports.len() == 1 { "" } else { "s" }
+                        ),
+                    };
                     // lex
-                    let lexed = aplang.lex().map_err(Reports::from).unwrap();
+                    let lexed = aplang.lex().map_err(|reports| invalid_module("lexed", reports))?;
                     // parseRun
-                    let parsed = lexed.parse().map_err(Reports::from).unwrap();
+                    let parsed = lexed.parse().map_err(|reports| invalid_module("parsed", reports))?;
                     // execute the module, get the exports
                     parsed.execute_as_module()?
                 };
